@@ -90,7 +90,7 @@ Proof. exact tauchen_grid. Qed.
 Print Assumptions C13_tauchen_grid.
 
 (* the hypotheses on Phi are satisfiable: a clamped linear cdf *)
-Definition ex_Phi (x : Q) : Q := if Qle_bool x (-1) then 0 else if Qle_bool 1 x then 1 else (x + 1) / 2.
+Definition ex_Phi (x : Q) : Q := if Qle_bool x (-1) then 0 else if Qle_bool 1 x then 1 else (x + 1) * (1 # 2).
 Example ex_Phi_ok : (forall x y, x <= y -> ex_Phi x <= ex_Phi y) /\ (forall x, 0 <= ex_Phi x <= 1).
 Proof.
   assert (B : forall a b, Qle_bool a b = false -> b < a).
@@ -102,7 +102,7 @@ Proof.
     end; lra.
 Qed.
 Example ex_tauchen :
-  let P := tauchen_P ex_Phi 3%nat (3 # 5) (4 # 5) 1 3 in
+  let P := tauchen_P ex_Phi 3%nat (3 # 5) (4 # 5) 1 1 in
   Qeq_bool (sum_list (nth 1 P [])) 1 = true /\ Qeq_bool (nth 1 (nth 1 P []) 0) 1 = false.
 Proof. vm_compute. split; reflexivity. Qed.
 
